@@ -73,7 +73,8 @@ def gen_case(rng, index, tier):
                         name_kw={'allow_bad_utf8': False})
     if arg['spelling'].startswith('-'):
         arg['spelling'] = './' + arg['spelling']
-    state = rng.choice(['first-use', 'existing', 'collision'])
+    state = rng.choice(['first-use', 'existing', 'collision', 'orphan-dir',
+                        'stale-info', 'dangling-pair'])
     if where in ('home', 'fallback'):
         tdir = L.home_trash()
     elif where == 'top':
@@ -83,6 +84,16 @@ def gen_case(rng, index, tier):
     if state != 'first-use':
         L.add(world.ensure_trash_dirs(tdir))
     nm = os.path.basename(arg['rel'])
+    if state == 'orphan-dir' and len(nm.encode('utf-8', 'surrogateescape')) < 200:
+        L.add({'p': tdir + '/files/' + nm, 't': 'd', 'm': 0o755})
+        L.add({'p': tdir + '/files/' + nm + '/inner', 't': 'f', 'c': 'inner'})
+    if state == 'dangling-pair' and len(nm.encode('utf-8', 'surrogateescape')) < 200:
+        L.add({'p': tdir + '/info/' + nm + '.trashinfo', 't': 'f',
+               'c': world.trashinfo_text('old/dangling', '2001-01-01T00:00:00')})
+        L.add({'p': tdir + '/files/' + nm, 't': 'l', 'to': 'nowhere'})
+    if state == 'stale-info' and len(nm.encode('utf-8', 'surrogateescape')) < 200:
+        L.add({'p': tdir + '/info/' + nm + '.trashinfo', 't': 'f',
+               'c': world.trashinfo_text('stale/x', '2001-01-01T00:00:00')})
     if state == 'collision' and len(nm.encode('utf-8', 'surrogateescape')) < 200:
         L.add(world.trash_nodes(
             tdir, nm, world.trashinfo_text('old/x', '2001-01-01T00:00:00'),
